@@ -249,6 +249,10 @@ func childMain(mode string) {
 		childRace(dir, path, arg)
 	case "reset":
 		childReset(dir, path, arg)
+	case "history":
+		childHistory(arg)
+	case "create-fault":
+		childCreateFault(dir, arg)
 	case "write-fault":
 		childWriteFault(dir, path, arg)
 	default:
@@ -437,4 +441,167 @@ func childWriteFault(dir, path, arg string) {
 	}
 	ents, _ := os.ReadDir(dir)
 	fmt.Printf("RESULT via=%s fault=%s err=%v content=%s entries=%d\n", via, fault, err != nil, content, len(ents))
+}
+
+// streamCreateFault: the temporary file cannot be created (file name so long that name+suffix exceeds
+// NAME_MAX; directory not writable for an unprivileged process) while SetValues / Write run and readers poll
+// the configuration file: the write-back must report the error and leave the file untouched — never a torn read.
+func (h *harness) streamCreateFault() {
+	variants := []string{"longname"}
+	if os.Geteuid() == 0 {
+		variants = append(variants, "setuid-rodir") // the child drops to an unprivileged user
+	} else {
+		variants = append(variants, "rodir")
+	}
+	for _, v := range variants {
+		iters := "150"
+		if h.env.Thorough {
+			iters = "1500"
+		}
+		code, out, to := h.runChild("create-fault", 300*time.Second, "C18_ARG="+v+" "+iters)
+		h.rep.Case("child create-fault "+v, true)
+		h.rep.Count("child:create-fault")
+		res := firstLineWith(out, "RESULT ")
+		replay := map[string]interface{}{"mode": "create-fault", "variant": v, "exit_code": code, "output": vh.Clip(out, 800),
+			"how": "configuration file of 300 lines; creating a temporary file next to it fails (" + v + "); SetValues(flip=A/B) and Write run " + iters + " times while 3 readers poll the file"}
+		switch {
+		case to:
+			h.rep.Fail("property", "write:fault-hangs", "write-back with a failing CreateTemp hung", replay)
+		case res == "":
+			h.rep.Fail("property", "write:fault-crash", fmt.Sprintf("write-back with a failing CreateTemp died (exit code %d)", code), replay)
+		case strings.Contains(res, "ineffective"):
+			h.rep.Count("child:create-fault:ineffective")
+		case !strings.Contains(res, "torn=0 "):
+			h.rep.Fail("property", "write:create-fault-torn-read",
+				"the temporary file could not be created ("+v+") and a reader polling the configuration file saw neither the old nor a complete new content: "+res, replay)
+		case strings.Contains(res, "final=other"):
+			h.rep.Fail("property", "write:fault-leaves-partial-file", "after write-backs with a failing CreateTemp the file holds neither the old nor a complete new content: "+res, replay)
+		case strings.Contains(res, "final=old") && strings.Contains(res, "errors=0 "):
+			h.rep.Fail("property", "write:fault-not-reported", "the temporary file could not be created, the file is untouched, but Write returned nil: "+res, replay)
+		}
+	}
+}
+
+func childCreateFault(dir, arg string) {
+	f := strings.Fields(arg)
+	variant, iters := f[0], 150
+	if len(f) > 1 {
+		fmt.Sscan(f[1], &iters)
+	}
+	var b strings.Builder
+	b.WriteString("# polled file\n")
+	for i := 0; i < 300; i++ {
+		fmt.Fprintf(&b, "key_%03d=value number %d with some padding to make the write take longer\n", i, i)
+	}
+	b.WriteString("flip=A\n")
+	old := b.String()
+	// the complete contents a successful write-back would produce (normal directory, normal name)
+	ref := filepath.Join(dir, "ref")
+	os.MkdirAll(ref, 0o755)
+	writeFile(filepath.Join(ref, "whatap.conf"), old)
+	rc := conffile.NewForVerif(conffile.WithHomePath(ref))
+	set := func(c *conffile.FileConfig, v string) {
+		m := map[string]string{"flip": v}
+		c.SetValues(&m)
+	}
+	set(rc, "B")
+	cb, _ := os.ReadFile(filepath.Join(ref, "whatap.conf"))
+	set(rc, "A")
+	ca, _ := os.ReadFile(filepath.Join(ref, "whatap.conf"))
+	contentA, contentB := string(ca), string(cb)
+
+	work := filepath.Join(dir, "work")
+	os.MkdirAll(work, 0o755)
+	name := "whatap.conf"
+	if variant == "longname" {
+		name = strings.Repeat("c", 246) + ".conf" // 251 bytes: the file can exist, name + ".tmp…" cannot
+	}
+	path := filepath.Join(work, name)
+	writeFile(path, old)
+	os.Setenv("WHATAP_CONFIG", name)
+	c := conffile.NewForVerif(conffile.WithHomePath(work))
+	if variant == "rodir" || variant == "setuid-rodir" {
+		os.Chmod(path, 0o666)
+		os.Chmod(work, 0o555)
+		defer os.Chmod(work, 0o755)
+	}
+	if variant == "setuid-rodir" {
+		syscall.Setgroups([]int{})
+		if err := syscall.Setgid(65534); err != nil {
+			fmt.Println("RESULT ineffective setgid", err)
+			return
+		}
+		if err := syscall.Setuid(65534); err != nil {
+			fmt.Println("RESULT ineffective setuid", err)
+			return
+		}
+	}
+	// is the fault in effect?
+	if tf, err := os.CreateTemp(work, name+".tmp*"); err == nil {
+		tf.Close()
+		os.Remove(tf.Name())
+		fmt.Println("RESULT ineffective: a temporary file can be created")
+		return
+	}
+	if _, err := os.ReadFile(path); err != nil {
+		fmt.Println("RESULT ineffective: the configuration file is not readable:", err)
+		return
+	}
+	var stop atomic.Bool
+	var wg sync.WaitGroup
+	var reads, torn int64
+	var tornLen atomic.Int64
+	for r := 0; r < 3; r++ {
+		wg.Add(1)
+		go func() {
+			defer wg.Done()
+			for !stop.Load() {
+				got, err := os.ReadFile(path)
+				atomic.AddInt64(&reads, 1)
+				if err != nil {
+					atomic.AddInt64(&torn, 1)
+					tornLen.Store(-1)
+					continue
+				}
+				if s := string(got); s != old && s != contentA && s != contentB {
+					atomic.AddInt64(&torn, 1)
+					tornLen.Store(int64(len(got)))
+				}
+			}
+		}()
+	}
+	parser := conffile.NewDefaultFileParser()
+	errors := 0
+	writes := 0
+	for i := 0; i < iters; i++ {
+		v := "B"
+		if i%2 == 1 {
+			v = "A"
+		}
+		if i%5 == 4 {
+			m, _, _ := libRead(old)
+			m["flip"] = v
+			if err := parser.Write(path, &m); err != nil {
+				errors++
+			}
+			writes++
+		} else {
+			set(c, v)
+		}
+	}
+	stop.Store(true)
+	wg.Wait()
+	got, _ := os.ReadFile(path)
+	final := "other"
+	switch string(got) {
+	case old, contentA:
+		final = "old"
+	case contentB:
+		final = "new"
+	}
+	if string(got) == contentA && contentA != old {
+		final = "new"
+	}
+	fmt.Printf("RESULT variant=%s torn=%d (last torn length %d of %d) reads=%d direct_writes=%d errors=%d final=%s\n",
+		variant, torn, tornLen.Load(), len(old), reads, writes, errors, final)
 }
